@@ -133,6 +133,13 @@ def check(ex, info):
         elif v.parent is not root:
             fail("adopted-element-parent-is-mapping", "the mapping", "None" if v.parent is None else
                  ("its previous container" if v.parent is ex.foreign_owner.get(id(v)) else type(v.parent).__name__))
+    # a plain scalar assigned to a declared scalar field is accepted
+    if op is not None and not skipped and info.get("target") is root and op["op"] == "setitem" and info.get("raised") is not None \
+            and op["k"] in field_cls and info["args"] and info["args"][0][0] == "plain" \
+            and (info["args"][0][1] is None or isinstance(info["args"][0][1], (int, str))) \
+            and G.kind_of_class(field_cls[op["k"]]) in ("integer", "string"):
+        fail("declared-key-accepted", "item assignment of a plain scalar to a declared scalar field succeeds",
+             type(info["raised"]).__name__)
     # operations naming an undeclared key are rejected and never add it
     if op is not None and not skipped and info.get("target") is root:
         und = [k for k in named_keys(op) if k not in declared]
@@ -285,6 +292,26 @@ class C10(Property):
         out.append({"schema": F, "init": {"route": "from_flat", "pairs": [["a", "x"], ["b", "7"], ["zz", "1"]]}, "nomodel": True,
                     "ops": [_op({"op": "update", "kw": [["b", 1]]}), _op({"op": "delitem", "k": "a"}),
                             _op({"op": "set_flat", "pairs": [["a", "y"], ["q", "1"]]})]})
+        # a class derived from an ALREADY USED parent class with another field list (seeded mutation
+        # C10-field-index-memo-inherited-sparse): Wide = SparseDict.of(x, y, z); Wide().set(...); Narrow = Wide.of(x, y)
+        Xi, Yi, Zi = _scalar(2, "integer", "x"), _scalar(3, "integer", "y"), _scalar(4, "integer", "z")
+        narrow = _map("sparse", [Xi, Yi])
+        narrow["derive"] = {"how": "of", "use": True, "use_value": {"d": [["x", 1], ["y", 2], ["z", 3]]}, "ghost": ["z"],
+                            "parent_subs": [_scalar(12, "integer", "x"), _scalar(13, "integer", "y"), _scalar(14, "integer", "z")]}
+        out.append({"schema": narrow, "init": {"route": "ctor", "value": None},
+                    "ops": [_op({"op": "setitem", "k": "x", "a": {"v": 5}}), _op({"op": "setitem", "k": "z", "a": {"v": 3}}),
+                            _op({"op": "update", "pos": {"d": [["z", 3]]}}), _op({"op": "update", "kw": [["z", 3]]}),
+                            _op({"op": "setdefault", "k": "z", "d": 3}),
+                            _op({"op": "set", "v": {"d": [["x", 1], ["z", 3]]}})]})
+        # class Person(SparseSchema): name = String; age = Integer;  Person() is used;
+        # class LoosePerson(Person): age = String; nick = String
+        loose = _map("sparse_schema", [_scalar(2, "string", "name"), _scalar(3, "string", "age"), _scalar(4, "string", "nick")])
+        loose["derive"] = {"how": "subclass", "use": True, "use_value": {"d": [["age", "33"], ["name", "anna"]]}, "ghost": [],
+                           "declared": ["age", "nick"],
+                           "parent_subs": [_scalar(12, "string", "name"), _scalar(13, "integer", "age")]}
+        out.append({"schema": loose, "init": {"route": "ctor", "value": None},
+                    "ops": [_op({"op": "setitem", "k": "age", "a": {"v": "thirty-three"}}),
+                            _op({"op": "setitem", "k": "nick", "a": {"v": "lp"}}), _op({"op": "get", "k": "nick"})]})
         return out
 
     def generate(self, rng, n, tier):
@@ -293,7 +320,7 @@ class C10(Property):
     def _generate(self, rng, n, tier):
         for _ in range(n):
             cid = G.Counter()
-            kind = rng.choice(["dict", "sparse", "sparse", "sparse", "schema", "date"] if rng.random() < 0.5
+            kind = rng.choice(["dict", "sparse", "sparse", "sparse_schema", "schema", "date"] if rng.random() < 0.5
                               else ["dict", "sparse", "sparse"])
             if kind == "date":
                 root_cid = cid()
@@ -318,7 +345,11 @@ class C10(Property):
                 fields.append(f)
             schema = _map(kind, fields, cid=root_cid, name=rng.choice([None, "d"]),
                           policy=rng.choice(["subset", "subset", "strict", "duck", "none"]),
-                          minreq=(kind == "sparse" and rng.random() < 0.5))
+                          minreq=(kind in ("sparse", "sparse_schema") and rng.random() < 0.5))
+            if rng.random() < 0.3:
+                # the class under test is DERIVED from a parent class with another field list, which (mostly) has
+                # already been used: a pre-history on the parent class precedes the case's own history
+                G.derive_mapping(rng, cid, schema)
             hostile = rng.random() < 0.2
             if rng.random() < 0.15:
                 schema["default"] = G.gen_value(rng, schema, valid=True)
@@ -380,6 +411,8 @@ class C10(Property):
         s = case["schema"]
         t = ["model=" + ("oracle-only" if case.get("nomodel") else "compared"),
              "kind=" + s["k"] + ("+required" if s["minreq"] else ""), "policy=" + s["policy"],
+             "class=" + ("derived-from-%s-parent(%s)" % ("used" if s["derive"].get("use") else "unused", s["derive"]["how"])
+                         if s.get("derive") else "fresh"),
              "route=" + case["init"]["route"], "ops=%d" % len(case["ops"])]
         declared = [f["name"] for f in s["subs"]]
         for o, st, prev in zip(case["ops"], obs["steps"][1:], obs["steps"]):
